@@ -364,7 +364,7 @@ func AddSecure(r *core.Rand, p *workflow.Plan, prob, strictP float64, nonce stri
 // Irregular applies 1-3 shape / validity irregularities to a plan: nil and empty slices, nil elements,
 // a sequence without actions, an empty (non-nil) attempts slice, blank names, a short timeout, an unknown
 // plugin, a request its plugin rejects, a nil request, negative retries. It returns what it did.
-func Irregular(r *core.Rand, p *workflow.Plan) []string {
+func Irregular(r *core.Rand, p *workflow.Plan, first int) []string {
 	var did []string
 	pickBlock := func() *workflow.Block {
 		if len(p.Blocks) == 0 {
@@ -395,7 +395,12 @@ func Irregular(r *core.Rand, p *workflow.Plan) []string {
 			}
 		}
 		if len(all) == 0 {
-			return nil
+			// no group anywhere: give the plan one
+			p.PreChecks = &workflow.Checks{Actions: []*workflow.Action{
+				{Name: "added check", Descr: "added", Plugin: hplug.CheckName, Req: hplug.Req{Nonce: "added", Path: "p/pre/0"}},
+				{Name: "added check 2", Descr: "added", Plugin: hplug.CheckName, Req: hplug.Req{Nonce: "added", Path: "p/pre/1", Tags: []string{"t"}}},
+			}}
+			return p.PreChecks
 		}
 		return all[r.Intn(len(all))]
 	}
@@ -416,6 +421,9 @@ func Irregular(r *core.Rand, p *workflow.Plan) []string {
 	k := r.Range(1, 3)
 	for i := 0; i < k; i++ {
 		what := r.Intn(20)
+		if i == 0 {
+			what = first % 20
+		}
 		switch what {
 		case 0:
 			p.Blocks = nil
